@@ -321,6 +321,37 @@ pub fn scenarios(tier: Tier) -> Vec<LinkScenario<fn() -> Box<dyn Probe>>> {
             out.push(LinkScenario { cfg, probe: probe_tight as fn() -> Box<dyn Probe> });
         }
     }
+    // G7: scale class — one 1.5 MB reliable message sent in a single tick (1250 packets in flight at once) on a
+    // 2 MB per tick link: everything is acknowledged one tick later and the budget comes back
+    for (name, ch) in [("ord", 0u8), ("unord", 1u8)] {
+        if tier == Tier::Quick && ch == 1 {
+            continue;
+        }
+        let mut cfg = LinkCfg::base(&format!("1.5 MB {} message, 1250 packets in flight", name), chans(2_000_000), chans(2_000_000));
+        cfg.bytes_per_tick = 2_000_000;
+        cfg.dt_ms = vec![100];
+        cfg.horizon = 1;
+        cfg.tail = 8;
+        cfg.drains = vec![Drain::End];
+        cfg.allow_reverse = true;
+        cfg.fates = vec![Fate::Ok];
+        cfg.script = vec![Send::at(0, 0, ch, 1_500_000)];
+        out.push(LinkScenario { cfg, probe: probe_tight as fn() -> Box<dyn Probe> });
+    }
+    // G8: scale class — latency: 4 ticks each way, 240 kB per tick, one 3 MB message: about 1600 packets are
+    // in flight at any time for 15 ticks; after the tail everything is acknowledged and the budget is back
+    if tier == Tier::Thorough || true {
+        let mut cfg = LinkCfg::base("latency 4 ticks each way, 3 MB ordered message at 240 kB per tick", chans(4_000_000), chans(4_000_000));
+        cfg.bytes_per_tick = 240_000;
+        cfg.dt_ms = vec![100];
+        cfg.base_delay_ticks = 4;
+        cfg.horizon = 0;
+        cfg.tail = 60;
+        cfg.drains = vec![Drain::End];
+        cfg.fates = vec![Fate::Ok];
+        cfg.script = vec![Send::at(0, 0, 0, 3_000_000)];
+        out.push(LinkScenario { cfg, probe: probe_tight as fn() -> Box<dyn Probe> });
+    }
     // G4: bandwidth-starved tick budget: unreliable messages are dropped at the flush, their bytes must come back
     for dir in 0..2usize {
         if tier == Tier::Quick && dir == 1 {
